@@ -58,5 +58,23 @@ theorem argmax_map (f : ℝ → ℝ) (hf : StrictMono f) (l : List ℝ) : argmax
   | nil => simp [argmax]
   | cons a as => simp only [List.map_cons, argmax]; exact argmaxAux_map f hf as 1 0 a
 
+theorem foldl_maxS_mem (l : List ℝ) (a : ℝ) : l.foldl maxS a = a ∨ l.foldl maxS a ∈ l := by
+  induction l generalizing a with
+  | nil => simp
+  | cons b bs ih =>
+    simp only [List.foldl_cons, List.mem_cons]
+    rcases ih (maxS a b) with h | h
+    · rw [h]
+      unfold maxS
+      split_ifs <;> simp
+    · exact Or.inr (Or.inr h)
+
+theorem foldl_add_exp (row : List ℝ) (m acc : ℝ) :
+    row.foldl (fun acc e => acc + Real.exp (e - m)) acc = acc + (row.map fun e => Real.exp (e - m)).sum := by
+  induction row generalizing acc with
+  | nil => simp
+  | cons b bs ih => simp only [List.foldl_cons, ih, List.map_cons, List.sum_cons]; ring
+
+
 end Logistic
 end LinfaSpec
